@@ -57,6 +57,11 @@ CHECKS['C13'] = ('§3 C13', 'R02b tail repair of the transaction log on reopen, 
                  'logs and what recovery restores (with lock handles), R13b recovery consumes every list its classification fills',
                  'MIR reachability under a phase assumption, writer/reader table agreement, field read/write sets')
 
+CHECKS['C16'] = ('§3 C16', 'R16a append stores a block only after must-pass checks of height, predecessor hash, tx root and signature, and the '
+                 'full-chain verifier checks the same set per block; R16b append is one critical section under append_lock; R16c the '
+                 'store pre-image of a commit is taken and restored under one lock and every failed append restores it; R16d the state '
+                 'root hashes only sorted iterations',
+                 'must-pass switch edges, cut-reachability, guard live ranges with held-on-entry, sibling validator cross-check')
 CHECKS['C17'] = ('§3 C17', 'R17a the newer-wins order reads every replicated view field (health, incarnation, timestamp) on both operands, '
                  'R17b every logical-clock write is old(+max)+positive constant, R17c incarnation is written only in refute under a '
                  'new > old necessary condition and merge inserts only under supersedes',
